@@ -262,6 +262,7 @@ package dag
 //@   ensures run.nil {C14}: result == nil ==> len(g.errs.Errors) == 0
 //@   ensures run.early {C16}: old(len(g.errs.Errors)) != 0 ==> $spawns_Run$1 == old($spawns_Run$1) && $spawns_Run$2 == old($spawns_Run$2) && $spawns_Run$3 == old($spawns_Run$3)
 //@   loop LOOP | "for"
+//@     decreases *      //# termination of the scheduler is a liveness property under fair scheduling: not claimed (DESIGN.md, C16)
 //@     invariant sched.wf: WF(g) && StatusOK() && ParentsNonNil() && g == old(g) && g.errs == old(g.errs)
 //@     invariant sched.cancelled {C14}: handledContext ==> len(g.errs.Errors) > 0
 //@     invariant sched.chan: done != nil && semaphore != nil
